@@ -111,6 +111,7 @@ package memory
 //@      && (forall q *[]byte {deref(q)} :: !fresh(q) ==> deref(q) == old(deref(q)))
 
 //@ func (m *MemoryKV) Put(ctx context.Context, key, value []byte) (err error)
+//@   ensures the-shared-empty-value-is-untouched: empty == old(empty)
 //@   opt puredyn=content
 //@   opt frame=off
 //@   requires repOK(m)
@@ -131,6 +132,7 @@ package memory
 //@   ensures nothing-changes: otherKeysKept(m, str(key)) && onlyRecordTouched(nil)
 
 //@ func (m *MemoryKV) Delete(ctx context.Context, key []byte) (err error)
+//@   ensures the-shared-empty-value-is-untouched: empty == old(empty)
 //@   opt puredyn=content
 //@   opt frame=off
 //@   requires repOK(m)
@@ -142,6 +144,7 @@ package memory
 //@   ensures other-keys-unchanged: otherKeysKept(m, str(key)) && onlyRecordTouched(rec(m, str(key)))
 
 //@ func (m *MemoryKV) PrefixAppend(ctx context.Context, prefix []byte, child []byte) (err error)
+//@   ensures the-shared-empty-value-is-untouched: empty == old(empty)
 //@   opt puredyn=content
 //@   opt frame=off
 //@   requires repOK(m)
@@ -162,6 +165,7 @@ package memory
 //@   ensures nothing-changes: otherKeysKept(m, str(prefix)) && onlyRecordTouched(nil)
 
 //@ func (m *MemoryKV) PrefixRemove(ctx context.Context, prefix []byte, needle []byte) (err error)
+//@   ensures the-shared-empty-value-is-untouched: empty == old(empty)
 //@   opt puredyn=content
 //@   opt frame=off
 //@   requires repOK(m)
@@ -190,6 +194,7 @@ package memory
 //@   ensures nothing-appears: forall k string {rec(m, k)} {inKeys(m, k)} {outKeys(m, k)} :: stored(m, k) ==> old(stored(m, k))
 
 //@ func (m *MemoryKV) RemoveKeys(ctx context.Context, keys [][]byte) (err error)
+//@   ensures the-shared-empty-value-is-untouched: empty == old(empty)
 //@   opt puredyn=content
 //@   opt frame=off
 //@   requires repOK(m)
@@ -395,6 +400,7 @@ package memory
 // child, and no child beyond those it had before (none, for an empty store) and the transferred ones.
 // The memory backend indexes values[i] unchecked, hence the length precondition (see DESIGN.md, C17).
 //@ func (m *MemoryKV) Import(ctx context.Context, keys [][]byte, values []*protocol.KVTransfer) (err error)
+//@   ensures the-shared-empty-value-is-untouched: empty == old(empty)
 //@   opt puredyn=content
 //@   opt inline=GetSimpleValue,GetLeaseToken,GetPrefixChildren
 //@   opt strings=abstract
@@ -417,12 +423,13 @@ package memory
 //@   ensures every-transferred-child-present: forall i int, a int {values[i].PrefixChildren[a]} :: (0 <= i && i < len(keys) && 0 <= a && a < len(values[i].PrefixChildren)) ==> hasChild(m, str(keys[i]), str(values[i].PrefixChildren[a]))
 //@   ensures no-other-child-appears: forall i int, c string {src[i][c]} :: (0 <= i && i < len(keys) && hasChild(m, str(keys[i]), c) && !(old(stored(m, str(keys[i]))) && old(hasChild(m, str(keys[i]), c)))) ==> (0 <= src[i][c] && src[i][c] < len(values[i].PrefixChildren) && str(values[i].PrefixChildren[src[i][c]]) == c)
 //@   ensures unlisted-keys-kept: forall k string {rec(m, k)} {inKeys(m, k)} {outKeys(m, k)} :: (old(stored(m, k)) && (forall i int :: (0 <= i && i < len(keys)) ==> str(keys[i]) != k)) ==> (stored(m, k) && rec(m, k) == old(rec(m, k)) && simpleOf(m, k) == old(simpleOf(m, k)) && leaseOf(m, k) == old(leaseOf(m, k)) && rec(m, k).children == old(rec(m, k).children) && rec(m, k).children.keys == old(rec(m, k).children.keys))
-//@   loop key: invariant idx: -1 <= rangeindex && rangeindex < len(keys) && unchanged(keys) && unchanged(values) && keptArrays("byte") && keptArrays("[]byte")
+//@   loop key: invariant idx: -1 <= rangeindex && rangeindex < len(keys) && unchanged(keys) && unchanged(values) && keptArrays("byte") && keptArrays("[]byte") && empty == old(empty)
 //@   loop key: invariant rep: repCore(m) && repInj(m)
 //@   loop key: invariant done: forall i int {keys[i]} :: (0 <= i && i <= rangeindex) ==> (stored(m, str(keys[i])) && simpleOf(m, str(keys[i])) == values[i].SimpleValue && leaseOf(m, str(keys[i])) == values[i].LeaseToken)
 //@   loop key: invariant children-in: forall i int, a int {values[i].PrefixChildren[a]} :: (0 <= i && i <= rangeindex && 0 <= a && a < len(values[i].PrefixChildren)) ==> hasChild(m, str(keys[i]), str(values[i].PrefixChildren[a]))
 //@   loop key: invariant children-only: forall i int, c string {src[i][c]} :: (0 <= i && i <= rangeindex && hasChild(m, str(keys[i]), c) && !(old(stored(m, str(keys[i]))) && old(hasChild(m, str(keys[i]), c)))) ==> (0 <= src[i][c] && src[i][c] < len(values[i].PrefixChildren) && str(values[i].PrefixChildren[src[i][c]]) == c)
 //@   loop key: invariant pending-keys-untouched: forall k string {rec(m, k)} {inKeys(m, k)} {outKeys(m, k)} :: (forall i int :: (0 <= i && i <= rangeindex) ==> str(keys[i]) != k) ==> ((old(stored(m, k)) ==> (stored(m, k) && rec(m, k) == old(rec(m, k)) && simpleOf(m, k) == old(simpleOf(m, k)) && leaseOf(m, k) == old(leaseOf(m, k)) && rec(m, k).children == old(rec(m, k).children) && rec(m, k).children.keys == old(rec(m, k).children.keys))) && (stored(m, k) ==> old(stored(m, k))))
+//@   loop child: invariant shared-empty: empty == old(empty)
 //@   loop child: invariant cidx: -1 <= rangeindex#2 && rangeindex#2 < len(values[rangeindex].PrefixChildren) && recOK(v) && v == rec(m, str(key)) && stored(m, str(key)) && 0 <= rangeindex && rangeindex < len(keys) && key == keys[rangeindex]
 //@   loop child: invariant only: forall c string {src[rangeindex][c]} {v.children.keys[c]} :: (v.children.keys[c] && !pre[c]) ==> (0 <= src[rangeindex][c] && src[rangeindex][c] <= rangeindex#2 && str(values[rangeindex].PrefixChildren[src[rangeindex][c]]) == c)
 //@   loop child: invariant other-sets-kept: forall s *skipset.StringSet {s.keys} :: s != v.children ==> s.keys == sets[s]
